@@ -9,55 +9,106 @@ from frontend import AnalysisBroken, where, base_name
 M = "MEDDLY::"
 
 
-def _norm(t):
-    t = re.sub(r"this->", "", t)
-    t = re.sub(r"\(\s*char\s*\*\s*\)", "", t)
-    t = re.sub(r"\b(nnz|size|sz|raw_size)\b", "N", t)
-    t = re.sub(r"\s+", "", t)
-    m = re.match(r"^slots_per_edge\?\(?(.*?)\)?:(0|nullptr)$", t)
-    if m:
-        t = m.group(1)
-    while t.startswith("(") and t.endswith(")") and t.count("(") == t.count(")") and "?" not in t[1:-1].split(")")[0]:
+def _strip(t):
+    while t.startswith("(") and t.endswith(")"):
         inner = t[1:-1]
-        if inner.count("(") != inner.count(")"):
+        d = 0
+        bad = False
+        for ch in inner:
+            d += ch == "("
+            d -= ch == ")"
+            if d < 0:
+                bad = True
+                break
+        if bad or d:
             break
         t = inner
     return t
 
 
-DOWN_FORMS = {"chunk+down_start"}
-INDEX_FORMS = {"down+N", "chunk+down_start+N"}
-EDGE_SPARSE = {"index+N", "down+2*N", "down+N+N"}
-EDGE_FULL = {"down+N"}
-EDGE_EITHER = {"down+(is_sparse?2*N:N)"}
+def _norm(t, ptrs, sparse_vars):
+    """linear form of a region pointer over C (the chunk address), the members @down_start / @slots_per_edge, N (any count local) and
+    S (the sparse bit); pointer locals are replaced by their own forms, so the result does not depend on what the locals are called"""
+    t = re.sub(r"this->(\w+)", r"@\1", t)
+    t = re.sub(r"\(\s*(?:const\s+)?\w+\s*\*\s*\)", "", t)
+    t = re.sub(r"\s+", "", t)
+    t = _strip(t)
+    m = re.match(r"^@slots_per_edge\?(.*):(0|nullptr)$", t)
+    marked = bool(m)
+    if m:
+        t = _strip(m.group(1))
+
+    def sub(mm):
+        w = mm.group(0)
+        if w.startswith("@") or w[0].isdigit():
+            return w
+        if w in ptrs:
+            return ptrs[w]
+        if w in sparse_vars:
+            return "S"
+        return "N"
+    t = re.sub(r"@?\w+", sub, t)
+    return t, marked
+
+
+R0 = "C+@down_start"
+DOWN_FORMS = {R0}
+INDEX_FORMS = {R0 + "+N"}
+EDGE_SPARSE = {R0 + "+N+N", R0 + "+2*N"}
+EDGE_FULL = {R0 + "+N"}
+EDGE_EITHER = {R0 + "+(S?2*N:N)"}
+ROLE_BY_NAME = {"down": "down", "dnptr": "down", "index": "index", "edge": "edge"}
 
 
 def rule_layout(P):
-    R = RuleResult("codec.layout", "every accessor of a packed node in storage/simple.cc computes the region bases as the same linear forms: down = chunk+down_start; sparse: index = down+n, edge values = index+n; full: edge values = down+size")
+    R = RuleResult("codec.layout", "every accessor of a packed node in storage/simple.cc computes the region bases as the same linear forms over the chunk address: down = chunk+down_start; sparse: index = down+n, edge values = index+n; full: edge values = down+size")
     nacc = 0
     for f in sorted(P.fns.values(), key=lambda f: (f["line"], f["inst"])):
         if f["file"] != "storage/simple.cc" or not f.get("cfg"):
             continue
         g = Graph(f)
-        defs = [n for n in g.nodes if n.kind == "ldef" and n.ev.get("ptr") and n.ev["var"] in ("down", "dnptr", "index", "edge")]
+        alldefs = sorted([n for n in g.nodes if n.kind == "ldef" and n.ev.get("ptr")], key=lambda n: n.line)
+        if not alldefs:
+            continue
+        name = base_name(f["q"]).split("::")[-1]
+        sparse_vars = {n.ev["var"] for n in g.nodes if n.kind == "ldef" and re.search(r"\bisSparse\s*\(|<\s*0", n.ev.get("rhs", "")) and not n.ev.get("ptr")}
+        sparse_vars |= {p["name"] for p in f.get("params", []) if "sparse" in p["name"]}
+        ptrs = {p["name"]: "C" for p in f.get("params", []) if any(re.match(r"^\(?%s\b" % re.escape(p["name"]), re.sub(r"this->", "", d.ev["rhs"])) for d in alldefs)}
+        forms = {}
+        for d in alldefs:
+            if (d.ev.get("callq") or "").endswith("getChunkAddress"):
+                ptrs[d.ev["var"]] = "C"
+                continue
+            form, marked = _norm(d.ev["rhs"], ptrs, sparse_vars)
+            forms[d.id] = (form, marked)
+            # a local with one definition (or the same form in every definition) stands for that form from then on
+            prev = ptrs.get(d.ev["var"])
+            if prev is None and form.startswith("C"):
+                ptrs[d.ev["var"]] = form
+            elif prev is not None and prev != form:
+                ptrs[d.ev["var"]] = "?" + d.ev["var"]
+        defs = [d for d in alldefs if d.id in forms and (forms[d.id][0].startswith(R0) or d.ev["var"] in ROLE_BY_NAME)]
         if not defs:
             continue
         nacc += 1
         R.functions.add(f["inst"])
         sparse_br = [n for n in g.nodes if n.kind == "branch" and n.cond and len(n.succ) == 2 and n.cond.get("op") == "truth" and
-                     ("is_sparse" in n.cond["l"]["refs"] or any(c.endswith("isSparse") for c in n.cond["calls"]))]
-        name = base_name(f["q"]).split("::")[-1]
+                     (any(r in sparse_vars for r in n.cond["l"]["refs"]) or any(c.endswith("isSparse") for c in n.cond["calls"]))]
         for d in defs:
-            form = _norm(d.ev["rhs"])
+            form, marked = forms[d.id]
             var = d.ev["var"]
             iid = "%s%s: %s = %s" % (name, f["sig"][:24], var, form)
+            # the role of the pointer: by the conventional local names where they are used, else by what the definition itself shows
+            # (edge-value pointers are conditional on slots_per_edge or cast to char*)
+            role = ROLE_BY_NAME.get(var) or ("edge" if marked or re.search(r"\(\s*char\s*\*\s*\)", d.ev["rhs"]) or form in EDGE_EITHER | EDGE_SPARSE else
+                                             "down" if form in DOWN_FORMS else "index")
             ok = False
             want = ""
-            if var in ("down", "dnptr"):
+            if role == "down":
                 ok = form in DOWN_FORMS or (name == "dumpInternalNode")
                 want = "chunk + down_start"
-            elif var == "index":
-                ok = form in INDEX_FORMS
+            elif role == "index":
+                ok = form in INDEX_FORMS or (name == "dumpInternalNode" and form.endswith("+N"))
                 want = "down + <number of entries>"
             else:
                 arm = None
@@ -87,8 +138,8 @@ def rule_layout(P):
             if ok:
                 R.ok(iid, where(f, d.line))
             else:
-                R.fail(iid, where(f, d.line), Finding(R.rule, f["file"], base_name(f["q"]), "%s-region" % var,
-                       "region base `%s = %s` differs from the layout every other accessor uses (%s): the node is read back from the wrong slots" % (var, d.ev["rhs"], want), d.line))
+                R.fail(iid, where(f, d.line), Finding(R.rule, f["file"], base_name(f["q"]), "%s-region" % role,
+                       "region base `%s = %s` (= %s) differs from the layout every other accessor uses (%s): the node is read back from the wrong slots" % (var, d.ev["rhs"], form, want), d.line))
     if nacc < 9:
         raise AnalysisBroken("codec.layout: expected at least 9 accessors with region pointers in storage/simple.cc, found %d" % nacc)
     R.require_floor(25, "region-base definitions")
